@@ -116,6 +116,15 @@ namespace sim
 		m_handler = std::move(handler);
 		if (m_expired)
 		{
+			if (m_expiration_time > chrono::high_resolution_clock::now())
+			{
+				// the timer was cancelled before it expired. cancel() does not
+				// change the expiry time, so this wait still has to last until
+				// then
+				m_expired = false;
+				m_io_service->add_timer(this);
+				return;
+			}
 			fire(boost::system::error_code());
 			return;
 		}
